@@ -101,9 +101,9 @@ class C16(core.Check):
         idx = None
         if hasattr(p, '_idMap'):
             idx = (tuple(sorted((k, id(v)) for k, v in p._idMap.items())),
-                   tuple(sorted((k, tuple(id(x) for x in v)) for k, v in p._nameMap.items() if v)),
-                   tuple(sorted((k, tuple(id(x) for x in v)) for k, v in p._classNameMap.items() if v)),
-                   tuple(sorted((k, tuple(id(x) for x in v)) for k, v in p._tagNameMap.items() if v)),
+                   tuple(sorted((k, tuple(id(x) for x in v)) for k, v in p._nameMap.items())),
+                   tuple(sorted((k, tuple(id(x) for x in v)) for k, v in p._classNameMap.items())),
+                   tuple(sorted((k, tuple(id(x) for x in v)) for k, v in p._tagNameMap.items())),
                    tuple(sorted((a, tuple(sorted((str(k), tuple(id(x) for x in v)) for k, v in m.items()))) for a, m in p._otherAttributeIndexes.items())),
                    (p.indexIDs, p.indexNames, p.indexClassNames, p.indexTagNames))
         return (p.getHTML(), ident, idx, p.doctype, p.encoding)
